@@ -156,7 +156,7 @@ func c01Property(rt *rapid.T, ev *evid.Rec, o machineOpts, faults bool) {
 	}
 	pending = nil
 	w.SetHook(nil)
-	if msg := m.settle(2, check); msg != "" {
+	if msg := m.settle(len(m.decls)+3, check); msg != "" {
 		if len(msg) > 12 && msg[:12] == "INCONCLUSIVE" {
 			rt.Fatalf("VERIF-INCONCLUSIVE %s", msg)
 		}
